@@ -22,6 +22,21 @@ type session struct {
 }
 
 func openSession(ss *simServer, srv *ServerDnsListener, addr net.Addr) (*session, error) {
+	s, err := openSessionNoAccept(ss, srv, addr)
+	if err != nil {
+		return nil, err
+	}
+	c, err := srv.Accept()
+	if err != nil {
+		return nil, err
+	}
+	s.user = c.(*userConnection)
+	return s, s.finishSetup()
+}
+
+// openSessionNoAccept performs the client's version handshake only (used for concurrent handshakes, where the caller
+// matches accepted server-side connections to clients by identifier).
+func openSessionNoAccept(ss *simServer, srv *ServerDnsListener, addr net.Addr) (*session, error) {
 	comm := newSimClient(ss, addr)
 	client, err := NewClientDnsConnection(domain, comm)
 	if err != nil {
@@ -34,15 +49,12 @@ func openSession(ss *simServer, srv *ServerDnsListener, addr net.Addr) (*session
 	if err := client.VersionHandshake(); err != nil {
 		return nil, err
 	}
-	c, err := srv.Accept()
-	if err != nil {
-		return nil, err
-	}
-	client.Serializer.Upstream.FragmentSize = 100
-	if err := client.SwitchFragmentSize(200); err != nil {
-		return nil, err
-	}
-	return &session{srv: srv, comm: comm, client: client, user: c.(*userConnection)}, nil
+	return &session{srv: srv, comm: comm, client: client}, nil
+}
+
+func (s *session) finishSetup() error {
+	s.client.Serializer.Upstream.FragmentSize = 100
+	return s.client.SwitchFragmentSize(200)
 }
 
 // transfer moves n bytes each way through the established session and checks them.
